@@ -69,6 +69,42 @@ def run(eng, ctx):
             return NotImplemented
         return hook
 
+    # ------------------------------------------------------------ shared: the naming rule the shapes are derived from
+    from . import decoder as DEC
+
+    DEC.naming(eng, ctx, "C03.D4", DEC.DecoderModel(eng))
+
+    # ------------------------------------------------------------ D0 memo tables
+    ctx.rule("C19.D0", "a helper that keeps results in a module-level table keys it so that the key determines the result: no two generable names with different "
+                       "expected results share a slot (key folded on every generable name at index 1 / 100)")
+    from ..memo import Unfoldable, collisions, memo_stores
+
+    concrete = []
+    for (key, depth) in sorted(sh):
+        for ix in ("01", "100"):
+            concrete.append((key + "".join(f"_{ix}" for _ in range(depth)), key, depth))
+            if depth == 0:
+                break
+    want = {n: k for n, k, _ in concrete}
+    memo_hit = set()
+    for qual, expected in (("rtcmhelpers.datadesc", lambda n: (T.fields.get(want[n]) or (None,) * 4)[3]), ("rtcmhelpers.att2idx", lambda n: n[len(want[n]):]), ("rtcmhelpers.att2name", lambda n: want[n])):
+        hf = eng.repo.func(qual)
+        for tab, kt, e in memo_stores(eng, qual):
+            memo_hit.add(qual)
+            loc = eng.loc(hf, e.node)
+            if kt == ("param", hf.params[0]):
+                ctx.ok("C19.D0", qual, norm(e.node)[:80], found="keyed by the argument itself", **loc)
+                continue
+            try:
+                col = collisions(eng, kt, hf.params[0], [n for n, _, _ in concrete], expected)
+            except Unfoldable as err:
+                ctx.undecided("C19.D0", qual, norm(e.node)[:80], detail=f"memo key not foldable: {err}", **loc)
+                continue
+            ctx.check(not col, "C19.D0", qual, norm(e.node)[:80], expected="the memo key determines the result", found=(f"{len(col)} slot(s) shared by names with different results, e.g. key {col[0][0]!r}: "
+                      f"{col[0][1]!r} -> {str(expected(col[0][1]))[:40]!r} but {col[0][2]!r} -> {str(expected(col[0][2]))[:40]!r}") if col else f"no collision over {len(concrete)} names", **loc)
+    if not memo_hit:
+        ctx.ok("C19.D0", "rtcmhelpers", "memo tables in the name helpers", found="none: datadesc, att2idx and att2name store into no module-level table", file=eng.repo.relpath("rtcmhelpers"), line=0)
+
     # ------------------------------------------------------------ D1 datadesc
     ctx.rule("C19.D1", "datadesc: for every generable shape the table key it derives is the shape's own KEY and the value returned is the description component")
     f = eng.repo.func("rtcmhelpers.datadesc")
